@@ -19,5 +19,7 @@ def run(ctx):
     n = 400 if ctx.tier == "quick" else 3000
     failures += progflow.judge(ctx, progflow.generate(ctx, "funcs", n), "gen")
     failures += corpus.judge(ctx, "C02")
+    # beyond the small scope: sizes that cross the one-digit / two-digit boundary of names, counters and indices (spec/FamScale.tla)
+    failures += progflow.judge(ctx, progflow.scale_cases(ctx, "C02"), "scale")
     progflow.report(ctx, failures)
     return ctx.finish(rule=RULE, assumptions=ASSUME)
